@@ -56,6 +56,10 @@ NoCode == 1
 Mut == "none"
 DeflateTail == <<0, 0, 255, 255>>           \* RFC 7692 7.2.2
 
+(* TLC evaluates a LET definition (and an operator argument) anew at every use.  Binding
+   a value through a singleton set evaluates it once:  One({Body(x) : x \in {expr}}).     *)
+One(set) == CHOOSE x \in set : TRUE
+
 (* ---------------------------------------------------------------- UTF-8 --- *)
 (* RFC 3629 well-formedness, stated position-wise (no recursion, linear):
    every lead byte is followed by exactly the continuation bytes it announces
@@ -206,6 +210,27 @@ StepM(r, S) ==
      out |-> HdrOut]
 
 (* ------------------------------------------------------ a complete frame ---- *)
+DataDone(r, r0, full, mop, mcomp, c, Infl(_, _), rej) ==
+    IF ~r.fin THEN
+        [r |-> [r0 EXCEPT !.inMsg = TRUE, !.msgOp = mop, !.msgComp = mcomp, !.msgAcc = full],
+         out |-> FrameOut]
+    ELSE
+        LET rd == [r0 EXCEPT !.inMsg = FALSE, !.msgAcc = <<>>, !.msgComp = FALSE] IN
+        IF mcomp THEN                                                  \* RFC 7692 7.2.2
+            LET k == r.ninfl + 1
+                o == Infl(k, full)
+                rk == [rd EXCEPT !.ninfl = k]
+            IN IF ~o.has THEN [r |-> rk, out |-> NoInflOut]
+               ELSE IF o.inp # full \o DeflateTail THEN [r |-> rk, out |-> BadInflOut]
+               ELSE IF ~o.ok THEN Fail(rk, {NoCode, 1002, 1007, 1009}, "inflate-error", r.pos)
+               ELSE IF c.max > 0 /\ o.outlen > c.max THEN Fail(rk, {1009}, "inflated-too-big", r.pos)
+               ELSE IF c.max > 0 /\ o.outlen = c.max /\ rej THEN Fail(rk, {1009}, "at-cap", r.pos)
+               ELSE IF mop = OpText /\ c.decode /\ ~o.utf8 THEN Fail(rk, {1007}, "text-utf8", r.pos)
+               ELSE [r |-> rk, out |-> MsgOut(mop, o.out, 0)]
+        ELSE IF mop = OpText /\ c.decode /\ ~Utf8Valid(full)           \* 5.6, 8.1
+             THEN Fail(rd, {1007}, "text-utf8", r.pos)
+        ELSE [r |-> rd, out |-> MsgOut(mop, full, 0)]
+
 FrameDone(r, payload, c, Infl(_, _), rej) ==
     LET r0 == [r EXCEPT !.ph = "H"]
         n == Len(payload)
@@ -226,32 +251,14 @@ FrameDone(r, payload, c, Infl(_, _), rej) ==
         LET first == r.op # OpCont
             mop == IF first THEN r.op ELSE r.msgOp
             mcomp == IF first THEN r.rsv1 ELSE r.msgComp
-            full == IF first THEN payload ELSE r.msgAcc \o payload
-        IN
-        IF ~r.fin THEN
-            [r |-> [r0 EXCEPT !.inMsg = TRUE, !.msgOp = mop, !.msgComp = mcomp, !.msgAcc = full],
-             out |-> FrameOut]
-        ELSE
-            LET rd == [r0 EXCEPT !.inMsg = FALSE, !.msgAcc = <<>>, !.msgComp = FALSE] IN
-            IF mcomp THEN                                                  \* RFC 7692 7.2.2
-                LET k == r.ninfl + 1
-                    o == Infl(k, full)
-                    rk == [rd EXCEPT !.ninfl = k]
-                IN IF ~o.has THEN [r |-> rk, out |-> NoInflOut]
-                   ELSE IF o.inp # full \o DeflateTail THEN [r |-> rk, out |-> BadInflOut]
-                   ELSE IF ~o.ok THEN Fail(rk, {NoCode, 1002, 1007, 1009}, "inflate-error", r.pos)
-                   ELSE IF c.max > 0 /\ o.outlen > c.max THEN Fail(rk, {1009}, "inflated-too-big", r.pos)
-                   ELSE IF c.max > 0 /\ o.outlen = c.max /\ rej THEN Fail(rk, {1009}, "at-cap", r.pos)
-                   ELSE IF mop = OpText /\ c.decode /\ ~o.utf8 THEN Fail(rk, {1007}, "text-utf8", r.pos)
-                   ELSE [r |-> rk, out |-> MsgOut(mop, o.out, 0)]
-            ELSE IF mop = OpText /\ c.decode /\ ~Utf8Valid(full)           \* 5.6, 8.1
-                 THEN Fail(rd, {1007}, "text-utf8", r.pos)
-            ELSE [r |-> rd, out |-> MsgOut(mop, full, 0)]
+        IN One({DataDone(r, r0, full, mop, mcomp, c, Infl, rej) :
+                    full \in {IF first THEN payload ELSE r.msgAcc \o payload}})
 
 StepP(r, S, c, Infl(_, _), rej) ==
-    LET raw == SubSeq(S, r.pos + 1, r.pos + r.need)
-        payload == IF r.masked THEN Unmask(raw, r.key) ELSE raw
-    IN FrameDone([r EXCEPT !.pos = r.pos + r.need], payload, c, Infl, rej)
+    One({FrameDone(r2, payload, c, Infl, rej) :
+            r2 \in {[r EXCEPT !.pos = r.pos + r.need]},
+            payload \in {IF r.masked THEN Unmask(SubSeq(S, r.pos + 1, r.pos + r.need), r.key)
+                         ELSE SubSeq(S, r.pos + 1, r.pos + r.need)}})
 
 Step(r, S, avail, c, Infl(_, _), rej) ==
     CASE r.ph = "H" -> StepH(r, S, c, rej)
